@@ -218,6 +218,72 @@ def explore(ctx):
         'stage_split_oracle_checked': oracle_checked,
         'model_vs_impl_disagreements': sum(1 for r in results if r['corr']),
     }
+    # order-dependent row operators between a sort and an aggregation see the SORTED rows (reference computed here, from
+    # the property text: sort, then limit / total on that order, then aggregate what is left)
+    ref_checked = 0
+    for i in range(16 if quick else 300):
+        nrows = rng.randint(4, 12)
+        vs = rng.sample(range(1, 60), nrows)
+        rows = [{'id': j, 'v': v, 'k': rng.choice('abc')} for j, v in enumerate(vs)]
+        lines = [json.dumps(r) + '\n' for r in rows]
+        N = rng.randint(1, nrows - 1)
+        desc = rng.random() < 0.4
+        srt = sorted(rows, key=lambda r: r['v'], reverse=desc)
+        shape = rng.choice(['head', 'tail', 'total'])
+        sq = 'sort by v%s' % (' desc' if desc else '')
+        if shape == 'head':
+            q = '* | json | %s | limit %d | count by k' % (sq, N)
+            kept = srt[:N]
+        elif shape == 'tail':
+            q = '* | json | %s | limit -%d | count by k' % (sq, N)
+            kept = srt[-N:]
+        else:
+            q = '* | json | %s | total(v) as t | max(t) as m by k' % sq
+            kept = srt
+        if shape == 'total':
+            run = 0
+            best = {}
+            for r in srt:
+                run += r['v']
+                best[r['k']] = max(best.get(r['k'], run), run)
+            want = sorted((k_, m_) for k_, m_ in best.items())
+            col_ = 'm'
+        else:
+            cnt = {}
+            for r in kept:
+                cnt[r['k']] = cnt.get(r['k'], 0) + 1
+            want = sorted(cnt.items())
+            col_ = '_count'
+        o = aglib.run_impl_one(q, ''.join(lines).encode('utf8'), 'json')
+        ref_checked += 1
+        try:
+            got = sorted((r['k'], r[col_]) for l in o['out'].decode('utf8').split('\n') if l.strip() for r in json.loads(l))
+        except (ValueError, KeyError, TypeError):
+            got = None
+        if o['rc'] != 0 or got != want:
+            failures.append({'kind': 'spec', 'what': 'a %s between a sort and an aggregation did not act on the sorted rows: got %r, expected %r' % ('limit' if shape != 'total' else 'total', got, want),
+                             'payload': {'query': q, 'input_lines': lines, 'mode': 'json'}})
+            break
+    # a head limit followed by a tail limit: the last M of the first N rows (the tail limit emits at end of input, which
+    # still has to be flushed through after the head limit has stopped taking rows)
+    for i in range(8 if quick else 100):
+        nrows = rng.randint(3, 12)
+        rows = [{'id': j} for j in range(nrows)]
+        lines = [json.dumps(r) + '\n' for r in rows]
+        N = rng.randint(1, nrows + 2)
+        M = rng.randint(1, 4)
+        q = '* | json | limit %d | limit -%d%s' % (N, M, rng.choice(['', ' | id + 0 as id', ' | where id >= 0']))
+        want_ids = [r['id'] for r in rows[:N][-M:]]
+        o = aglib.run_impl_one(q, ''.join(lines).encode('utf8'), 'json')
+        ref_checked += 1
+        try:
+            got_ids = [json.loads(l)['id'] for l in o['out'].decode('utf8').split('\n') if l.strip()]
+        except (ValueError, KeyError, TypeError):
+            got_ids = None
+        if o['rc'] != 0 or got_ids != want_ids:
+            failures.append({'kind': 'spec', 'what': '`limit %d | limit -%d` printed the rows %r, expected %r' % (N, M, got_ids, want_ids), 'payload': {'query': q, 'input_lines': lines, 'mode': 'json'}})
+            break
+    cov['sorted_then_order_dependent_checked'] = ref_checked
     # the same on a live terminal, where every refresh re-runs the chain on the first aggregation's CURRENT table:
     # a second aggregation must aggregate exactly those rows (no group of an earlier refresh may linger)
     from props import c16
